@@ -172,6 +172,8 @@ def run(ctx, rep):
                        "Ok-capable exit at %s requires %s <= len%s" % (f.loc(b), lo, "" if hi is None else " <= %s" % hi), loc=f.loc(b))
     keystream(rep, prog)
     sealnonce(rep, prog)
+    nw = cm.read_after_wipe(rep, prog, ("classic::crypto_box", "classic::crypto_secretbox", "dryocbox::", "dryocsecretbox::", "precalc::", "keypair::"))
+    rep.floor("wipes of local key material in the box / secretbox / precalc code", nw, 4)
     n_roles = cm.role_consistency(rep, prog)
     rep.floor("key-role call edges", n_roles, 40)
 
